@@ -53,6 +53,8 @@ def _worker(idx):
                 from . import replay
                 if "memo" in o.name.split("/", 1)[-1]:
                     r["scenario"] = {"kind": "history_battery"}
+                elif "regex-literal" in o.name:
+                    r["scenario"] = {"kind": "name_battery"}
                 else:
                     r["scenario"] = replay.build_scenario(o.res.interp, o.res, o.verdict.model) if getattr(o, "res", None) \
                         else getattr(o, "scenario", None)
